@@ -367,6 +367,38 @@ pub fn raw_events(text: &str) -> (Vec<AEv>, bool) {
     (out, false)
 }
 
+/// Start position (line, column as serde-saphyr reports them) of every content event of a text.
+pub fn raw_positions(text: &str) -> Vec<(u64, u64)> {
+    let text = text.strip_prefix('\u{FEFF}').unwrap_or(text);
+    let mut out = vec![];
+    for item in Parser::new_from_str(text) {
+        let Ok((ev, span)) = item else { break };
+        match ev {
+            Event::StreamStart | Event::StreamEnd | Event::Nothing | Event::DocumentStart(_) | Event::DocumentEnd => {}
+            _ => out.push((span.start.line() as u64, span.start.col() as u64 + 1)),
+        }
+    }
+    out
+}
+
+/// (line, column) of an error, (0,0) when unknown.
+pub fn err_loc(e: &serde_saphyr::Error) -> (u64, u64) {
+    match e.location() {
+        Some(l) => (l.line(), l.column()),
+        None => (0, 0),
+    }
+}
+
+/// All positions an error reports: primary, reference (use site), defined (definition site).
+pub fn err_locs(e: &serde_saphyr::Error) -> Vec<(u64, u64)> {
+    let mut v = vec![err_loc(e)];
+    if let Some(ls) = e.locations() {
+        v.push((ls.reference_location.line(), ls.reference_location.column()));
+        v.push((ls.defined_location.line(), ls.defined_location.column()));
+    }
+    v
+}
+
 /// Content events of a single-document text (DS/DE stripped).
 pub fn strip_doc_markers(evs: &[AEv]) -> Vec<AEv> {
     evs.iter().filter(|e| e.k != "DS" && e.k != "DE").cloned().collect()
@@ -503,7 +535,18 @@ pub fn classify(e: &serde_saphyr::Error) -> String {
         E::InvalidUtf8Input => "Io:utf8".into(),
         E::ValidationError { .. } | E::ValidationErrors { .. } => "Validation".into(),
         E::ValidatorError { .. } | E::ValidatorErrors { .. } => "Validation".into(),
-        E::AliasError { msg, .. } => format!("Alias:{}", first_word(msg)),
+        E::AliasError { msg, .. } => {
+            let m = msg.to_ascii_lowercase();
+            if m.starts_with("duplicate mapping key") {
+                "DuplicateKey".into()
+            } else if m.contains("merge value") {
+                "MergeValue".into()
+            } else if m.contains("budget") {
+                "Budget:wrapped".into()
+            } else {
+                format!("Alias:{}", first_word(msg))
+            }
+        }
         E::Eof { .. } => "Type:Eof".into(),
         other => {
             let d = format!("{other:?}");
@@ -564,6 +607,29 @@ pub fn guarded<T>(f: impl FnOnce() -> T + std::panic::UnwindSafe) -> Result<T, S
                 "panic".to_string()
             };
             Err(msg)
+        }
+    }
+}
+
+/// Flatten a node tree back to events.
+pub fn events_from_node(n: &Node, out: &mut Vec<AEv>) {
+    match n {
+        Node::Scalar { a, v, q, t } => out.push(AEv::new("S", *a, v, q, t)),
+        Node::Alias { a } => out.push(AEv::new("AL", *a, "", "p", "")),
+        Node::Seq { a, t, items } => {
+            out.push(AEv::new("SS", *a, "", "p", t));
+            for i in items {
+                events_from_node(i, out);
+            }
+            out.push(AEv::new("SE", 0, "", "p", ""));
+        }
+        Node::Map { a, t, entries } => {
+            out.push(AEv::new("MS", *a, "", "p", t));
+            for (k, v) in entries {
+                events_from_node(k, out);
+                events_from_node(v, out);
+            }
+            out.push(AEv::new("ME", 0, "", "p", ""));
         }
     }
 }
